@@ -5,6 +5,18 @@ HERE = os.path.dirname(os.path.dirname(os.path.abspath(__file__)))
 ALL = ["C%02d" % i for i in range(1, 21)]
 HYD_NOTE = "Trusted: TLC; Dec.tla exact decimal arithmetic (self-tested by setup); recorded floats are logged at their shortest round-trip decimal; tolerances derived from the solver criterion max|residual| < 1e-6 with factor 2; non-converged runs are counted, not asserted."
 CLAIMED = {
+ "C06": dict(cat="model_checking", tech="TLC trace validation: tank integration identity and level limits (Hydraulics.tla TankStep/TankLimits) on consecutive solved rows",
+   text="With report_timestep='ALL' every pair of consecutive solved steps of runs on random tank networks (cylindrical and volume-curve tanks with small capacity, several links incl. pumps and CV pipes) is checked by TLC: volume(level2) - volume(level1) = reported net inflow x elapsed time, level(0) = init_level, limits respected up to two seconds of flow, no discharge at min / no filling at max.",
+   note=HYD_NOTE + " A volume curve is not asserted outside its first/last level. Known finding (open): volume-curve tanks overshoot limits when a trial step leaves the curve.", ref="DESIGN.md section 5 C06"),
+ "C07": dict(cat="model_checking", tech="TLC trace validation of pressure sweeps: five-branch PDD curve per row (PowCert), monotonicity and continuity over all ordered row pairs",
+   text="Sweep traces drive the pressure at a PDD junction through ~75 values from far below Pmin to far above Preq, sub-millimetre around the four band edges, for global and per-junction (Pmin, Preq, exponent) from a grid incl. demand 0; TLC decides the branch law per row and monotonicity/continuity over all pairs; PDD rows of random networks are checked too.",
+   note=HYD_NOTE + " Inside the 0.05 m smoothing bands only boundedness/monotonicity/continuity are asserted.", ref="DESIGN.md section 5 C07"),
+ "C08": dict(cat="model_checking", tech="TLC trace validation of the leak law (root-free), the activity window and the node balance; remove_leak replay",
+   text="Random networks with 1-3 leaks on junctions and tanks, start/end on and off the hydraulic grid, DD with negative pressures and PDD: TLC checks on every leaky node x row that q^2 = (Cd A)^2 2 g p within the solver tolerance on q when active at positive pressure, zero otherwise, active exactly on [start, end), and that the leak is part of the node balance; remove_leak leaves no control and no flow.",
+   note=HYD_NOTE, ref="DESIGN.md section 5 C08"),
+ "C09": dict(cat="model_checking", tech="TLC model checking of the incremental adjacency (Isolation.tla) + TLC trace validation: zeroed <=> unreachable over reported statuses",
+   text="Isolation.tla models the per-node-pair adjacency entry shared by parallel links and its update after status changes; TLC checks for every multigraph/status history in scope that the isolated set equals declarative reachability. The real simulator (C++ search rebuilt from source) is run on multigraphs with parallel links and schedules of closures/openings; TLC recomputes reachability from the reported statuses of every row and checks isolated => all zero, connected => solved normally (balance, demand).",
+   note=HYD_NOTE, ref="DESIGN.md section 5 C09"),
  "C01": dict(cat="model_checking", tech="TLC trace validation of recorded WNTRSimulator runs against Hydraulics.tla (node balances and demand-driven demand in exact decimal arithmetic)",
    text="Every reported row of every run on seeded random feature-rich networks is checked by TLC (ObsTrace.tla) against the mass-balance clauses of Hydraulics.tla: junction balance incl. leaks, tank and reservoir demand = net inflow, and in DD mode delivered demand = sum base x pattern(t + pattern_start) x multiplier, with adjacency taken from the scenario definition, not from WNTR.",
    note=HYD_NOTE, ref="DESIGN.md section 5 C01"),
